@@ -44,13 +44,15 @@ def flat(ts):
     return torch.cat([t.reshape(-1) for t in ts if t is not None and t.dim() > 0])
 
 
-def oracle_fwd_grad(ck, filt, J, shape, o, ri, skm, inm, named, tol):
+def oracle_fwd_grad(ck, filt, J, shape, o, ri, skm, inm, named, tol, force=None):
     from pytorch_wavelets.dtcwt.transform2d import DTCWTForward as M
     rng = ck.rng
     bits = lambda mask: [bool((mask >> j) & 1) for j in range(J)]
-    mod = M(biort=(filt[0], filt[1]), qshift=tuple(filt[2:]), J=J, skip_hps=bits(skm), include_scale=bits(inm), o_dim=o, ri_dim=ri)
-    desc = 'DTCWTForward gradient J=%d shape=%s layout=(%d,%d) skip=%s include_scale=%s filters=%s' % (J, tuple(shape), o, ri, bin(skm), bin(inm), named)
-    replay = {'oracle': 'fwd_grad', 'filt': [arr_json(f) for f in filt], 'J': J, 'shape': list(shape), 'o': o, 'ri': ri, 'skm': skm, 'inm': inm, 'named': named, 'tol': tol}
+    from ..impl_dtcwt import _module
+    mod = _module(M, (filt[0], filt[1]), tuple(filt[2:]), np.concatenate([np.ravel(f) for f in filt] + [np.array(shape, dtype=float)]), force,
+                  J=J, skip_hps=bits(skm), include_scale=bits(inm), o_dim=o, ri_dim=ri)
+    desc = ('[module state adopted: %s] ' % force if force else '') + 'DTCWTForward gradient J=%d shape=%s layout=(%d,%d) skip=%s include_scale=%s filters=%s' % (J, tuple(shape), o, ri, bin(skm), bin(inm), named)
+    replay = {'oracle': 'fwd_grad', 'filt': [arr_json(f) for f in filt], 'J': J, 'shape': list(shape), 'o': o, 'ri': ri, 'skm': skm, 'inm': inm, 'named': named, 'tol': tol, 'force': force}
 
     def outs_of(x):
         yl, yh = mod(x)
@@ -82,18 +84,19 @@ def oracle_fwd_grad(ck, filt, J, shape, o, ri, skm, inm, named, tol):
     return None
 
 
-def oracle_inv_grad(ck, filt, J, H, W, o, ri, mask, named, tol):
+def oracle_inv_grad(ck, filt, J, H, W, o, ri, mask, named, tol, force=None):
     """requires_grad subset `mask` (bit 0 low, bit j level j) of the inverse's arguments"""
     from pytorch_wavelets.dtcwt.transform2d import DTCWTInverse as M
     rng = ck.rng
-    mod = M(biort=(filt[0], filt[1]), qshift=tuple(filt[2:]), o_dim=o, ri_dim=ri)
+    from ..impl_dtcwt import _module
+    mod = _module(M, (filt[0], filt[1]), tuple(filt[2:]), np.concatenate([np.ravel(f) for f in filt] + [np.array([H, W, J], dtype=float)]), force, o_dim=o, ri_dim=ri)
     (lh, lw), hsz = pyramid_shapes(H, W, J)
     ins = [T(gen.int_tensor(rng, (1, 1, lh, lw), 3))] + [T(canon_to_layout(gen.int_tensor(rng, (1, 1, 6, a, b, 2), 3), o, ri).copy()) for a, b in hsz]
     for i, t in enumerate(ins):
         if (mask >> i) & 1:
             t.requires_grad_(True)
-    desc = 'DTCWTInverse gradient J=%d image=%dx%d layout=(%d,%d) requires_grad=%s filters=%s' % (J, H, W, o, ri, bin(mask), named)
-    replay = {'oracle': 'inv_grad', 'filt': [arr_json(f) for f in filt], 'J': J, 'H': H, 'W': W, 'o': o, 'ri': ri, 'mask': mask, 'named': named, 'tol': tol}
+    desc = ('[module state adopted: %s] ' % force if force else '') + 'DTCWTInverse gradient J=%d image=%dx%d layout=(%d,%d) requires_grad=%s filters=%s' % (J, H, W, o, ri, bin(mask), named)
+    replay = {'oracle': 'inv_grad', 'filt': [arr_json(f) for f in filt], 'J': J, 'H': H, 'W': W, 'o': o, 'ri': ri, 'mask': mask, 'named': named, 'tol': tol, 'force': force}
     y = mod((ins[0], ins[1:]))
     need = [t for t in ins if t.requires_grad]
     from ..gradcheck import pull_variants
@@ -135,6 +138,13 @@ def oracle(ck, extended):
     rng = ck.rng
     q = ck.tier == 'quick'
     pairs = [(b, s) for b in OD.BIORTS for s in OD.QSHIFTS]
+    # covering cases: modules whose state was taken over from another instance (constructed with other filters of the same
+    # lengths, then load_state_dict + exact dtype round trip; or the deferred meta-device construction): gradients must
+    # follow the CURRENT state
+    for force in ('adopt', 'deferred'):
+        ff = structured_filters(rng); fi = structured_filters(rng)
+        rt.guard(ck, oracle_fwd_grad, ck, ff, 2, (8, 6), 2, -1, 0, 0, 'structured integer filters', 1e-9, force)
+        rt.guard(ck, oracle_inv_grad, ck, fi, 2, 8, 6, 2, -1, 7, 'structured integer filters', 1e-9, force)
     n = (16 if q else 120) * (2 if extended else 1)
     for it in range(n):
         J = rng.randint(1, 2 if q else 3)
@@ -209,9 +219,9 @@ def replay(ck, path):
         return 1
     filt = [arr_from(a) for a in f['filt']]
     if f['oracle'] == 'fwd_grad':
-        oracle_fwd_grad(ck, filt, f['J'], tuple(f['shape']), f['o'], f['ri'], f['skm'], f['inm'], f['named'], f['tol'])
+        oracle_fwd_grad(ck, filt, f['J'], tuple(f['shape']), f['o'], f['ri'], f['skm'], f['inm'], f['named'], f['tol'], f.get('force'))
     else:
-        oracle_inv_grad(ck, filt, f['J'], f['H'], f['W'], f['o'], f['ri'], f['mask'], f['named'], f['tol'])
+        oracle_inv_grad(ck, filt, f['J'], f['H'], f['W'], f['o'], f['ri'], f['mask'], f['named'], f['tol'], f.get('force'))
     for fl in ck.failures:
         print('REPLAY-FAILS: ' + fl['desc'])
     if not ck.failures:
